@@ -23,8 +23,8 @@ PROFILE = {'n_rps': 2, 'setup_ops': 16,
 def run(chk):
     if not getattr(chk, 'no_lean', False):
         chk.lean_stage(META['lean_module'], exe=True)
-    n = 110 if chk.tier == 'quick' else 3000
-    conc.run_races(chk, ['C07'], n, 160 if chk.tier == 'quick' else 3000, PROFILE)
+    n = 110 if chk.tier == 'quick' else 800
+    conc.run_races(chk, ['C07'], n, 160 if chk.tier == 'quick' else 800, PROFILE)
     chk.cov['rule'] = ('start states at the capacity boundary built through the API; 2 (8%: 3) allocation writes and guarded inventory / '
                        'trait / aggregate updates racing for one inventory, provider or consumer; every canonical interleaving executed on '
                        'the real application; for each the successful requests are replayed serially in every order on a copy of the start '
